@@ -504,7 +504,9 @@ func (m *Machine) assertV(v value, label string) {
 
 // RunPath executes harness fn along trace.
 func (m *Machine) RunPath(fn *ssa.Function, initPkgs []*ssa.Package, trace []Dec) (res *PathResult) {
-	m.F = NewFactory()
+	if m.F == nil || m.F.Size() > 400000 {
+		m.F = NewFactory()
+	}
 	m.S.Reset()
 	m.pathNo++
 	if m.cfg.ModelEvery <= 0 {
@@ -537,15 +539,7 @@ func (m *Machine) RunPath(fn *ssa.Function, initPkgs []*ssa.Package, trace []Dec
 		m.funcsSeen = map[*ssa.Function]bool{}
 	}
 	res = m.res
-	m.globals = make(map[*ssa.Global]*value)
-	for _, pkg := range m.prog.AllPackages() {
-		for _, mem := range pkg.Members {
-			if g, ok := mem.(*ssa.Global); ok {
-				cell := zero(deref(g.Type()))
-				m.globals[g] = &cell
-			}
-		}
-	}
+	m.globals = make(map[*ssa.Global]*value) // allocated lazily on first access
 	m.sched = newScheduler(m)
 	defer func() {
 		m.sched.killAll()
